@@ -57,6 +57,17 @@ Proof.
   induction l as [|x l IH]; cbn; [tauto|]. rewrite IH, Forall_map. tauto.
 Qed.
 
+Lemma in_firstn {A} k (l : list A) x : In x (firstn k l) -> In x l.
+Proof.
+  revert k. induction l as [|y l IH]; intros [|k]; cbn; auto; try tauto. intros [E|I]; eauto.
+Qed.
+
+Lemma pairwise_firstn {A} (R : A -> A -> Prop) k l : pairwise R l -> pairwise R (firstn k l).
+Proof.
+  revert k. induction l as [|x l IH]; intros [|k]; cbn; auto. intros (F & P). split; auto.
+  rewrite Forall_forall in *. intros b Ib. apply F. eapply in_firstn; eauto.
+Qed.
+
 Lemma NoDup_pairwise {A} (l : list A) : NoDup l <-> pairwise (fun a b => a <> b) l.
 Proof.
   induction l as [|x l IH]; cbn.
@@ -159,6 +170,21 @@ Section DedupeFacts.
       apply existsb_exists in E. destruct E as (r & Ir & S). rewrite X in S; cbn; auto. }
     unfold set_add_by. rewrite E. rewrite IH; rewrite <- app_assoc; cbn; auto.
   Qed.
+
+  (* no representative repeats an earlier one *)
+  Lemma fold_set_add_norepeat l acc :
+    pairwise (fun e x => same e x = false) acc ->
+    pairwise (fun e x => same e x = false) (fold_left (set_add_by same) l acc).
+  Proof.
+    revert acc. induction l as [|x l IH]; cbn; intros acc P; auto. apply IH.
+    unfold set_add_by. destruct (existsb (fun e => same e x) acc) eqn:E; auto.
+    apply pairwise_snoc. split; auto. apply Forall_forall. intros e Ie.
+    destruct (same e x) eqn:S1; auto.
+    assert (X : existsb (fun e => same e x) acc = true) by (apply existsb_exists; eauto). congruence.
+  Qed.
+
+  Lemma dedupe_by_norepeat l : pairwise (fun e x => same e x = false) (dedupe_by same l).
+  Proof. apply fold_set_add_norepeat. exact I. Qed.
 
   Lemma dedupe_by_prefix l1 l2 :
     pairwise (fun e x => same e x = false) l1 -> length l1 <= length (dedupe_by same (l1 ++ l2)).
